@@ -20,7 +20,7 @@ pub enum Op {
     Relocate { id: u32, task: u8, off: u8 },
     Drop { id: u32, task: u8 },
     Call { id: u32, task: u8, dir: Dir, shape: Shape, n: u32, in_off: u32, out_off: u32, data: Vec<u8> },
-    Anchor { idx: u32 },
+    Anchor { ty: usize, dir: Dir },
     EpochFlip { mask: bool },
     Repeat { step: u32 },
 }
@@ -61,7 +61,7 @@ impl Op {
             Op::Drop { id, task } => json!({"op":"drop","id":id,"task":task}),
             Op::Call { id, task, dir, shape, n, in_off, out_off, data } => json!({"op":"call","id":id,"task":task,
                 "dir":dir.name(),"shape":shape.name(),"n":n,"in_off":in_off,"out_off":out_off,"data":hex(data)}),
-            Op::Anchor { idx } => json!({"op":"anchor","idx":idx}),
+            Op::Anchor { ty, dir } => json!({"op":"anchor","type":reg.types[*ty].name,"dir":dir.name()}),
             Op::EpochFlip { mask } => json!({"op":"epoch_flip","mask_aes":mask}),
             Op::Repeat { step } => json!({"op":"repeat","step":step}),
         }
@@ -98,7 +98,7 @@ impl Op {
                 out_off: u("out_off")? as u32,
                 data: unhex(s("data")?)?,
             },
-            "anchor" => Op::Anchor { idx: u("idx")? as u32 },
+            "anchor" => Op::Anchor { ty: reg.type_by_name(s("type")?)?, dir: Dir::parse(s("dir")?)? },
             "epoch_flip" => Op::EpochFlip { mask: v.get("mask_aes")?.as_bool()? },
             "repeat" => Op::Repeat { step: u("step")? as u32 },
             _ => return None,
@@ -198,11 +198,21 @@ fn anchor_bytes(tag: &str, n: usize) -> Vec<u8> {
 impl Anchors {
     /// Must be called first thing in the process (mask off, epoch 0).
     pub fn compute(reg: &Registry) -> Anchors {
+        Self::compute_for(reg, None)
+    }
+
+    /// Anchors restricted to some families (the interpreter engines cannot afford all of them).
+    pub fn compute_for(reg: &Registry, only: Option<&[&str]>) -> Anchors {
         let mut slots = Slots::new();
         let slot = slots.alloc(0);
         let mut entries = Vec::new();
         let mut dg = Digest::default();
         for t in &reg.types {
+            if let Some(o) = only {
+                if !o.contains(&t.family) {
+                    continue;
+                }
+            }
             let fam = &reg.families[reg.family(t.family).unwrap()];
             // same key/input for every variant and role of a family
             let key = anchor_bytes(&format!("anchor-key-{}", t.family), fam.key_size);
@@ -840,7 +850,7 @@ impl<'a> World<'a> {
             Op::Call { id, dir, shape, n, in_off, out_off, data, .. } => {
                 self.do_call(op, *id, *dir, *shape, *n as usize, *in_off as usize, *out_off as usize, data, true)
             }
-            Op::Anchor { idx } => self.do_anchor(*idx as usize),
+            Op::Anchor { ty, dir } => self.do_anchor(*ty, *dir),
             Op::EpochFlip { mask } => {
                 if !self.insts.is_empty() {
                     self.stats.f_epoch_flip_with_live += 1;
@@ -886,11 +896,11 @@ impl<'a> World<'a> {
         }
     }
 
-    fn do_anchor(&mut self, idx: usize) -> Result<StepOut, Violation> {
-        if self.anchors.entries.is_empty() {
-            return Ok(StepOut { applied: false, out: vec![] });
-        }
-        let e = self.anchors.entries[idx % self.anchors.entries.len()].clone();
+    fn do_anchor(&mut self, ty: usize, dir: Dir) -> Result<StepOut, Violation> {
+        let e = match self.anchors.entries.iter().find(|e| e.ty == ty && e.dir == dir) {
+            Some(e) => e.clone(),
+            None => return Ok(StepOut { applied: false, out: vec![] }),
+        };
         let t = self.reg.types[e.ty].clone();
         let fam = self.reg.family(t.family).unwrap();
         self.stats.op_anchor += 1;
